@@ -131,7 +131,20 @@ def run(ctx):
     maps = mu.calls(b, r"^std::option::Option::<T>::map$")
     asref = mu.calls(b, r"^std::option::Option::<T>::as_ref$")
     report.count()
-    if len(maps) != 1 or len(asref) != 1:
+    # evaluated on both cases of header.opt: None gives no record, Some gives one OPT record (whatever the spelling:
+    # `as_ref().map(..)`, `let opt = self.opt.as_ref()?; Some(..)`, a match)
+    shape_ok = False
+    try:
+        evo = Evaluator(prog)
+        res = []
+        for o in (EnumVal("Option", "None"), EnumVal("Option", "Some", [{"opt_codes": Opaque("codes"), "udp_packet_size": 1232, "version": 0}])):
+            hdr = {"opt": o, "response_code": EnumVal("RCODE", "NoError"), "z_flags": 0, "opcode": EnumVal("OPCODE", "StandardQuery"), "id": 1}
+            res.append(evo.call(b, [hdr]))
+        shape_ok = isinstance(res[0], EnumVal) and res[0].v == "None" and isinstance(res[1], EnumVal) and res[1].v == "Some" and \
+            res[1].f and isinstance(res[1].f[0], EnumVal) and res[1].f[0].adt == "ResourceRecord"
+    except NotATable:
+        shape_ok = False
+    if not shape_ok and (len(maps) != 1 or len(asref) != 1):
         viol(report, "C09-R3", b.qname, "Header::opt_rr is no longer `self.opt.as_ref().map(..)`: one record iff Some cannot be shown")
     else:
         report.nontriv("opt_rr shape")
